@@ -108,6 +108,8 @@ func unitsFor(prop, tier string) []Unit {
 		us = append(us, Unit{Prop: prop, Tier: tier, Kind: "appx", Index: 0, Name: "appx/http-surface (real binary over a socket)"})
 	case "C18":
 		us = append(us, Unit{Prop: prop, Tier: tier, Kind: "procx", Index: 0, Bin: "race", Name: "procx/C18/race-build (same grammar under the race detector)"})
+	case "C13":
+		us = append(us, Unit{Prop: prop, Tier: tier, Kind: "procx", Index: 0, Bin: "race", Name: "procx/C13/real-runner (production task runner and exec handler under the race detector)"})
 	}
 	if prop == "C14" {
 		for i, c := range httpxCombos() {
